@@ -450,8 +450,11 @@ reg_node("C08", "Theorems: every configuration derived by one action is adjacent
          "configurations intersect; a submitted configuration is rejected unless the previous one is committed, an own-term entry is committed, no "
          "voting right changes directly, no node vanishes, new nodes are non-voters and a stable voter remains; actions are carried out only when "
          "canChangeConfig holds (incl. own-term commit: the pre-repair guard is refuted); followers adopt the newest configuration entry. "
-         "PARTIAL: the cross-leader overlap argument (H_overlap) is not mechanised (said in Props/C08.v).",
-         ["NoDup node ids; requests carry consecutive entries"])
+         "Cluster level (Props/C08_abs.v on Abs/CfgRaft.v): election safety, log matching, leader completeness, state-machine safety in every "
+         "reachable state of the protocol with single-voter membership changes in the log; the variant without the own-term-commit guard is refuted. "
+         "The abstract reconfiguration protocol has no crash/snapshot steps and is linked to the code by the node-level guard theorems plus the "
+         "per-event correspondence (no history checker for membership-changing runs).",
+         ["NoDup node ids; requests carry consecutive entries"], extra_props=["C08_abs.v"])
 
 
 # ------------------------------------------------------------------ C10
